@@ -23,6 +23,11 @@ hint["f"] = ("Prefer a change that only shows on REUSE or through a RARELY USED 
              "failed operation, module-level caches or mutable defaults shared between instances, an alternative constructor, a convenience "
              "wrapper or the batch variant of a single-step call, an option that is off by default. Avoid the most obvious arithmetic or table "
              "site, and avoid changes that any single fresh-object round trip would expose.")
+hint["g"] = ("Prefer a change at a SEAM BETWEEN COMPONENTS or in an ERROR / FALLBACK PATH: the glue between the CPU core and a peripheral "
+             "(memory-mapped registers, callbacks, overlays), the conversion between two representations of the same thing (bytes <-> integers, "
+             "Python <-> Rust field names, snapshot metadata <-> live objects, text <-> operands), an exception that is caught and replaced by a "
+             "default, a value that is clamped / masked / defaulted when it is out of range, or the order of two independent-looking updates. "
+             "The change should leave every component correct in isolation. Avoid the most obvious arithmetic or table site.")
 hint = hint[variant]
 print(f"""You are helping test a verification framework for the repository mblsha/binja-esr (a Binary Ninja plugin + emulator for the Sharp SC62015 CPU: decoder/encoder, LLIL lifter, assembler, PC-E500 machine emulator in Python under pce500/, and a Rust core under sc62015/core).
 
